@@ -10,10 +10,10 @@ import (
 	"github.com/unixpickle/model3d/model3d"
 )
 
-func dot3(a, b C3) float64 { return a.X*b.X + a.Y*b.Y + a.Z*b.Z }
-func norm3(a C3) float64   { return math.Sqrt(dot3(a, a)) }
-func sub3(a, b C3) C3      { return C3{X: a.X - b.X, Y: a.Y - b.Y, Z: a.Z - b.Z} }
-func add3(a, b C3) C3      { return C3{X: a.X + b.X, Y: a.Y + b.Y, Z: a.Z + b.Z} }
+func dot3(a, b C3) float64    { return a.X*b.X + a.Y*b.Y + a.Z*b.Z }
+func norm3(a C3) float64      { return math.Sqrt(dot3(a, a)) }
+func sub3(a, b C3) C3         { return C3{X: a.X - b.X, Y: a.Y - b.Y, Z: a.Z - b.Z} }
+func add3(a, b C3) C3         { return C3{X: a.X + b.X, Y: a.Y + b.Y, Z: a.Z + b.Z} }
 func mul3(a C3, s float64) C3 { return C3{X: a.X * s, Y: a.Y * s, Z: a.Z * s} }
 
 func dot2(a, b C2) float64 { return a.X*b.X + a.Y*b.Y }
@@ -88,8 +88,8 @@ func refCylinderSDF(a, b C3, r float64, p C3) float64 {
 	ap := sub3(p, a)
 	t := dot3(ap, u)
 	rad := norm3(sub3(ap, mul3(u, t)))
-	dr := r - rad                   // >0 inside radially
-	da := math.Min(t, l-t)          // >0 inside axially
+	dr := r - rad          // >0 inside radially
+	da := math.Min(t, l-t) // >0 inside axially
 	if dr >= 0 && da >= 0 {
 		return math.Min(dr, da)
 	}
@@ -128,8 +128,8 @@ type hBall struct {
 	r float64
 }
 
-func (h *hBall) Min() C3 { return C3{X: h.c.X - h.r, Y: h.c.Y - h.r, Z: h.c.Z - h.r} }
-func (h *hBall) Max() C3 { return C3{X: h.c.X + h.r, Y: h.c.Y + h.r, Z: h.c.Z + h.r} }
+func (h *hBall) Min() C3          { return C3{X: h.c.X - h.r, Y: h.c.Y - h.r, Z: h.c.Z - h.r} }
+func (h *hBall) Max() C3          { return C3{X: h.c.X + h.r, Y: h.c.Y + h.r, Z: h.c.Z + h.r} }
 func (h *hBall) SDF(p C3) float64 { return refSphereSDF(h.c, h.r, p) }
 func (h *hBall) NormalSDF(p C3) (C3, float64) {
 	d := sub3(p, h.c)
@@ -139,7 +139,7 @@ func (h *hBall) NormalSDF(p C3) (C3, float64) {
 	}
 	return mul3(d, 1/n), h.r - n
 }
-func (h *hBall) MetaballField(p C3) float64        { return -h.SDF(p) }
+func (h *hBall) MetaballField(p C3) float64          { return -h.SDF(p) }
 func (h *hBall) MetaballDistBound(d float64) float64 { return d }
 
 // hBox is an axis-aligned box operand.
@@ -167,7 +167,7 @@ func (h *hBox) NormalSDF(p C3) (C3, float64) {
 	}
 	return axis3(bk, bs), d
 }
-func (h *hBox) MetaballField(p C3) float64        { return -h.SDF(p) }
+func (h *hBox) MetaballField(p C3) float64          { return -h.SDF(p) }
 func (h *hBox) MetaballDistBound(d float64) float64 { return d }
 
 // 2D operands
@@ -187,7 +187,7 @@ func (h *hDisc) NormalSDF(p C2) (C2, float64) {
 	}
 	return C2{X: d.X / n, Y: d.Y / n}, h.r - n
 }
-func (h *hDisc) MetaballField(p C2) float64        { return -h.SDF(p) }
+func (h *hDisc) MetaballField(p C2) float64          { return -h.SDF(p) }
 func (h *hDisc) MetaballDistBound(d float64) float64 { return d }
 
 type hBox2 struct{ mn, mx C2 }
@@ -215,7 +215,7 @@ func (h *hBox2) NormalSDF(p C2) (C2, float64) {
 	n[bk] = bs
 	return model2d.NewCoordArray(n), d
 }
-func (h *hBox2) MetaballField(p C2) float64        { return -h.SDF(p) }
+func (h *hBox2) MetaballField(p C2) float64          { return -h.SDF(p) }
 func (h *hBox2) MetaballDistBound(d float64) float64 { return d }
 
 var (
